@@ -33,6 +33,8 @@ type C18Params struct {
 	Link   int        `json:"link"`  // chain offset
 	Names  []string   `json:"names"` // mode all: file names present
 	Plan   simrt.Plan `json:"plan"`
+	// Absent: the argument is well-formed but regex-assembly/<file> does not exist, while include/<file> does
+	Absent bool `json:"absent,omitempty"`
 }
 
 var leadingZeroK = regexp.MustCompile(`-chain0[0-9]`)
@@ -125,6 +127,13 @@ func genC18(t *rapid.T, tier string) (*World, any) {
 		if ok {
 			w.Put(p.File, "fresh"+fmt.Sprint(link)+"\n")
 		}
+		if ok && !leadingZeroK.MatchString(p.Arg) && chance(t, 12, "absent-file") {
+			// a rule argument names a file in regex-assembly/, never one of the same name further down
+			delete(w.Files, p.File)
+			w.Put("crs/regex-assembly/include/"+file, "   inc"+fmt.Sprint(link)+"\n")
+			w.Put("crs/regex-assembly/exclude/"+file, "   exc"+fmt.Sprint(link)+"\n")
+			p.Absent = true
+		}
 	case "stdin":
 		p.Cmd = "generate"
 		p.Arg = pick(t, []string{"942100", "942100.ra", "942100-chain2", "942100-chain2.ra"}, "arg")
@@ -140,6 +149,10 @@ func genC18(t *rapid.T, tier string) (*World, any) {
 			content = strings.TrimSuffix(content, "\n")
 		case 1:
 			content = strings.ReplaceAll(content, "\n", "\r\n")
+		}
+		if lines := strings.Split(strings.TrimRight(content, "\r\n"), "\n"); !strings.HasPrefix(strings.TrimSpace(lines[len(lines)-1]), "##!") && chance(t, 12, "last-trailing") {
+			// white space at the end of the last entry is part of that entry on both paths
+			content = strings.TrimRight(content, "\r\n") + pick(t, []string{" ", "\t", "  "}, "last-trailing-v") + pick(t, []string{"\n", "", "\n\n"}, "last-trailing-nl")
 		}
 		if chance(t, 15, "bom") {
 			content = "\ufeff" + content // whatever a byte order mark means to the compiler, it means the same on both paths
@@ -307,6 +320,15 @@ func evalC18(sc *Scenario, sim *Sim) ([]Violation, bool, string) {
 			}
 			if len(changed) > 0 {
 				add("grammar", "rejected-but-wrote-"+p.Cmd, fmt.Sprintf("argument %q must be rejected but files changed: %s", p.Arg, strings.Join(changed, " ")), "")
+			}
+			break
+		}
+		if p.Absent {
+			if r.Exit == 0 {
+				add("file-resolution", "absent-data-file-"+p.Cmd, fmt.Sprintf("argument %q names %s, which does not exist (files of that name exist in include/ and exclude/), but `%s` exits 0", p.Arg, p.File, p.Cmd), fmt.Sprintf("files read: %v\nstdout: %q", readPaths(), clip(r.Stdout)))
+			}
+			if len(changed) > 0 {
+				add("file-resolution", "absent-data-file-wrote-"+p.Cmd, fmt.Sprintf("argument %q names %s, which does not exist, but files changed: %s", p.Arg, p.File, strings.Join(changed, " ")), "")
 			}
 			break
 		}
@@ -487,7 +509,7 @@ func sortStrings(s []string) {
 func init() {
 	register(&Property{
 		ID: "C18", Level: "exploration",
-		Rule: "scenario in one of four modes. arg: argument strings built from 8 id shapes x 16 chain numbers (0, 1, 2, 3, 7, 255, 256, 300, 2^64, 10^20, leading zeros, signs, fractions, letters, empty) x 18 surface shapes (.ra, .ra.ra, trailing / leading junk, upper case, blanks, doubled -chain, ./) for generate / update / compare / format, with the literally named file present; oracle: accepted iff inside the statement's grammar with K <= 255, the file read (I/O trace) is regex-assembly/NNNNNN[-chainK].ra, update rewrites exactly the K-th chained rule's operand (disk vs structure), rejected implies exit != 0 and no write. stdin: generate ARG vs generate - with the same bytes (LF / CRLF / no final newline). root: 27 combinations of cwd and -d (also trailing slashes, unclean paths, -d naming a file) (absolute or relative; at, below, beside a root; nested roots; no root at all; no -d) - the root observed through the trace must be the nearest ancestor-or-self of -d holding regex-assembly, or exactly cwd without -d; nothing outside it is read or written. all: --all over 1-5 file names drawn from in-grammar, K > 255 and near-miss names - in-grammar names address exactly their lines, near misses are skipped, K > 255 fails. Each run under a seeded schedule. Distinct = distinct parameter sets.",
+		Rule: "scenario in one of four modes. arg: argument strings built from 8 id shapes x 16 chain numbers (0, 1, 2, 3, 7, 255, 256, 300, 2^64, 10^20, leading zeros, signs, fractions, letters, empty) x 18 surface shapes (.ra, .ra.ra, trailing / leading junk, upper case, blanks, doubled -chain, ./) for generate / update / compare / format, with the literally named file present; oracle: accepted iff inside the statement's grammar with K <= 255, the file read (I/O trace) is regex-assembly/NNNNNN[-chainK].ra, update rewrites exactly the K-th chained rule's operand (disk vs structure), rejected implies exit != 0 and no write. stdin: generate ARG vs generate - with the same bytes (LF / CRLF / no final newline). root: 27 combinations of cwd and -d (also trailing slashes, unclean paths, -d naming a file) (absolute or relative; at, below, beside a root; nested roots; no root at all; no -d; in half of the scenarios with .git directories / files of other checkouts on the way up) - the root observed through the trace must be the nearest ancestor-or-self of -d holding regex-assembly, or exactly cwd without -d; nothing outside it is read or written. all: --all over 1-5 file names drawn from in-grammar, K > 255 and near-miss names - in-grammar names address exactly their lines, near misses are skipped, K > 255 fails. Each run under a seeded schedule. Distinct = distinct parameter sets.",
 		Gen:  genC18, Eval: evalC18,
 		QuickChecks: 1500, ThoroughChecks: 30000, Timeout: 20 * time.Second,
 		Assumptions: []string{
